@@ -396,6 +396,8 @@ def run(repo: Repo, rep):
     r4_defaults_alignment(repo, rep)
     from .c09 import r4_branch_cache  # conditions sharing one DeepONet: the branch features in use belong to the function set of the condition being evaluated
     r4_branch_cache(repo, rep)
+    from .c17 import r3_necessary_variables  # conditions share base domains: building `plate - hole(t)` for one condition must not write the hole's variables into `plate`
+    r3_necessary_variables(repo, rep)
 
 
 _C = "src/torchphysics/problem/conditions/condition.py"
